@@ -165,7 +165,7 @@ def collides(a, b):
 
 
 @st.composite
-def clean_chain(draw, k, max_len, allow_palindromes=False):
+def clean_chain(draw, k, max_len, allow_palindromes=False, strict_last=False):
     """Overhangs o_0..o_L (L >= 1): pairwise distinct; start overhangs
     o_0..o_{L-1} pairwise non reverse-complementary (and non palindromic unless
     allowed)."""
@@ -184,6 +184,15 @@ def clean_chain(draw, k, max_len, allow_palindromes=False):
         starts = ["A" * k]
         rest = [o for o in rest if o != starts[0]]
     last = [o for o in rest if o not in starts]
+    if strict_last:
+        # the closing overhang must not collide with any start either, so that
+        # the reverse-complemented assembly is unambiguous as well
+        import itertools
+        pool = last + ["".join(t) for t in itertools.islice(itertools.product(ACGT, repeat=k), 0, 300)]
+        last = [o for o in pool if all(not collides(o, s_) for s_ in starts) and dna.rc(o) != o]
+        if not last:
+            starts = starts[:1]
+            last = [o for o in pool if not collides(o, starts[0]) and dna.rc(o) != o]
     if not last:
         # deterministic fallback: first k-mer not used as a start
         import itertools
@@ -214,10 +223,11 @@ def vector_body(draw, g, max_seg=40):
 
 
 @st.composite
-def assembly_spec(draw, max_chain=6, max_seg=40, enzyme=None, allow_palindromes=True):
+def assembly_spec(draw, max_chain=6, max_seg=40, enzyme=None, allow_palindromes=True,
+                  strict_last=False):
     ename = enzyme or draw(enzyme_strategy())
     g = dna.geometry(dna.enzyme_by_name(ename))
-    chain = draw(clean_chain(g.k, max_chain, allow_palindromes))
+    chain = draw(clean_chain(g.k, max_chain, allow_palindromes, strict_last))
     L = len(chain) - 1
     v = draw(vector_body(g, max_seg))
     v["o_down"], v["o_up"] = chain[0], chain[L]
